@@ -14,7 +14,7 @@ from vf.core import quiet
 
 CFG = 'CONSTANTS Kind = "%s"\nNSteps = %d\nVaryParams = %s\nStationary = FALSE\nSPECIFICATION Spec\n'
 SCFG = 'CONSTANTS Kind = "ou"\nNSteps = %d\nVaryParams = %s\nStationary = TRUE\nSPECIFICATION Spec\n'
-LAWS = "INVARIANT WienerClosed\nINVARIANT OUClosed\nINVARIANT OUStationary\nINVARIANT OUCross\nINVARIANT IWPVelocity\nINVARIANT IWPClosed\nINVARIANT NonNegative\n"
+LAWS = "INVARIANT RefineLaw\nINVARIANT WienerClosed\nINVARIANT OUClosed\nINVARIANT OUStationary\nINVARIANT OUCross\nINVARIANT IWPVelocity\nINVARIANT IWPClosed\nINVARIANT NonNegative\n"
 
 
 def q(v):
@@ -144,6 +144,40 @@ def check_instance(jenv, inst):
                     out.append("%s: response to the initial state component %d is %s, expected %s" % (variant, c, r.ravel().tolist(), P[:, :, c].ravel().tolist()))
         except Exception as e:
             out.append("%s: raised %s: %s" % (variant, type(e).__name__, str(e)[:140]))
+    out += check_refined(jenv, inst, C, D)
+    return out
+
+
+def check_refined(jenv, inst, C, D, m=128):
+    """RefineLaw on the code: the same process on a grid with every step cut into m equal pieces has the same covariance at the old grid points
+    (constant parameters; the process functions compute their transition from the step length, fine steps reach their small-step branches)"""
+    jax, jnp, jft, gm = jenv
+    out = []
+    st = inst["steps"]
+    if not all(s["s2"] == st[0]["s2"] and s["asp"] == st[0]["asp"] and s["rho"] == st[0]["rho"] for s in st) or not all(s["dt"] == st[0]["dt"] for s in st):
+        return out
+    kind = inst["kind"]
+    n = len(st)
+    dt = np.repeat(np.array([q(s["dt"]) for s in st]) / m, m)
+    sig = float(np.sqrt(q(st[0]["s2"])))
+    N = n * m
+    try:
+        if kind == "wiener":
+            f = lambda xi: gm.wiener_process(xi[:, 0], 0., sig, jnp.asarray(dt))[:, None]
+        elif kind == "ou":
+            gam = float(-np.log(q(st[0]["rho"])) / q(st[0]["dt"]))
+            f = lambda xi: gm.ornstein_uhlenbeck_process(xi[:, 0], 0., sig, gam, jnp.asarray(dt))[:, None]
+        else:
+            f = lambda xi: gm.integrated_wiener_process(xi, jnp.zeros(2), sig, jnp.asarray(dt), float(q(st[0]["asp"])))
+        J = np.asarray(jax.jacfwd(lambda xi: f(xi).reshape(-1))(jnp.zeros((N, D))), dtype=float).reshape((N + 1) * D, N * D)
+        rows = np.array([k * m * D + c for k in range(n + 1) for c in range(D)])
+        got = J[rows] @ J[rows].T
+        if not np.allclose(got, C, rtol=1e-9, atol=1e-10):
+            i, j = np.unravel_index(np.argmax(np.abs(got - C)), C.shape)
+            out.append("refined grid (every step cut into %d): Cov(state %d comp %d, state %d comp %d) = %.12g at the old grid points, the continuous-time process has %.12g" % (
+                m, i // D, i % D, j // D, j % D, got[i, j], C[i, j]))
+    except Exception as e:
+        out.append("refined grid: raised %s: %s" % (type(e).__name__, str(e)[:140]))
     return out
 
 
